@@ -70,7 +70,7 @@ def sample_archives(py7zr, R, tier):
     refs = [("lzma2", "lzma", 2, "substream", True, None), ("copy", "raw", 1, "substream", False, None), ("bzip2", "lzma", 3, "substream", True, None),
             ("deflate", "raw", 2, "folder", False, None), ("lzma", "lzma", 4, "substream", False, None), ("copy", "aes", 2, "substream", True, "pw"),
             ("lzma2", "lzma", 1, "substream", False, "pw")]
-    for k, (coder, hdr, nf, crc, packcrc, pw) in enumerate(refs if tier != "quick" else refs[:3]):
+    for k, (coder, hdr, nf, crc, packcrc, pw) in enumerate(refs if tier != "quick" else refs[:4]):
         files, folders = [], []
         for f in range(nf):
             ms = members(1 + (f + k) % 3, 100 * k + f)
